@@ -28,7 +28,8 @@ def sh(cmd, **kw):
 
 
 def main():
-    cdir, prop, sid = sys.argv[1], sys.argv[2].upper(), sys.argv[3]
+    cdir, prop, sid = (os.path.abspath(sys.argv[1]), sys.argv[2].upper(),
+                       sys.argv[3])
     tier = "quick"
     if "--tier" in sys.argv:
         tier = sys.argv[sys.argv.index("--tier") + 1]
